@@ -46,6 +46,7 @@ type c08Args struct {
 	Scn   int      `json:"scn"`
 	Start int64    `json:"start"`
 	Txs   []string `json:"txs"`
+	Host  [][]string `json:"hostile"` // catalogue entries <<kind, parameter, class>> delivered in the block after the templates
 	K     string   `json:"k"`
 	X     string   `json:"x"`
 }
@@ -199,7 +200,18 @@ func (w *world) reference(start int64, script [][]string, reruns int) *refRun {
 	for _, names := range script {
 		var b refBlock
 		for _, n := range names {
-			for _, tx := range c.tpl(n) {
+			var txs [][]byte
+			if strings.HasPrefix(n, "h|") {
+				// a catalogue entry (kind|parameter|class)
+				p := strings.SplitN(n, "|", 4)
+				var err error
+				if txs, err = c.hostile(p[1], p[2], p[3]); err != nil {
+					panic(fmt.Sprintf("hostile entry %s: %v", n, err))
+				}
+			} else {
+				txs = c.tpl(n)
+			}
+			for _, tx := range txs {
 				b.raw = append(b.raw, tx)
 				b.names = append(b.names, n)
 			}
@@ -239,7 +251,14 @@ func runTwins(t *testing.T, em *drv.Emitter, w *world, h drv.History, reruns int
 			must(json.Unmarshal(st.Args, &steps[i]))
 		}
 		if st.Act == "Block" {
-			script = append(script, steps[i].Txs)
+			names := append([]string{}, steps[i].Txs...)
+			for _, e := range steps[i].Host {
+				if len(e) != 3 {
+					t.Fatalf("history %d: hostile entry %v", h.H, e)
+				}
+				names = append(names, "h|"+strings.Join(e, "|"))
+			}
+			script = append(script, names)
 		}
 	}
 	key, _ := json.Marshal([]any{ia.Start, script})
@@ -341,7 +360,7 @@ func runTwins(t *testing.T, em *drv.Emitter, w *world, h drv.History, reruns int
 			em.Emit(ev)
 			continue
 		}
-		ev := map[string]any{"h": h.H, "i": si, "act": "Block", "args": map[string]any{"txs": steps[si].Txs}, "res": "ok", "ntx": 0, "nok": 0,
+		ev := map[string]any{"h": h.H, "i": si, "act": "Block", "args": map[string]any{"txs": steps[si].Txs, "hostile": hostOf(steps[si].Host)}, "res": "ok", "ntx": 0, "nok": 0,
 			"dref": "none", "dpert": "none", "equal": false, "diff": "", "runs": []string{}, "agree": false, "log": "", "height": int(ia.Start) + bi + 1, "ff": ffAt[bi]}
 		if bi < len(ref.blocks) {
 			b := ref.blocks[bi]
@@ -393,6 +412,17 @@ func runTwins(t *testing.T, em *drv.Emitter, w *world, h drv.History, reruns int
 
 const probeN = 5
 
+// the evidence tally is evaluated much more often: with contentious evidence a result that depends on the iteration
+// order of a two-entry map is the same 5 times in a row once in 16
+const probeNEvidence = 64
+
+func hostOf(h [][]string) [][]string {
+	if h == nil {
+		return [][]string{}
+	}
+	return h
+}
+
 func (c *chain) abciQuery(path string, req gogoproto.Message) []byte {
 	bz, err := gogoproto.Marshal(req)
 	must(err)
@@ -408,8 +438,12 @@ func (c *chain) abciQuery(path string, req gogoproto.Message) []byte {
 func (c *chain) probe(kind string) (stable bool, n int, log string) {
 	var first []byte
 	stable = true
+	times := probeN
+	if kind == "evidence" {
+		times = probeNEvidence
+	}
 	eval := func(f func() []byte) {
-		for i := 0; i < probeN; i++ {
+		for i := 0; i < times; i++ {
 			out := func() (out []byte) {
 				defer func() {
 					if r := recover(); r != nil {
@@ -483,7 +517,7 @@ func (c *chain) probe(kind string) (stable bool, n int, log string) {
 	case "relay":
 		for _, ch := range chains {
 			q := turnstoneQueue(ch)
-			for v := 0; v < nVals; v++ {
+			for v := 0; v < c.nv(); v++ {
 				va := c.val(v).ValAddr
 				eval(func() []byte {
 					var b bytes.Buffer
